@@ -31,25 +31,48 @@ type gzipResponseWriter struct {
 	bufferExceeded bool // Track if we exceeded max buffer size
 }
 
+// WriteHeader records the status. The header is NOT forwarded yet: whether the
+// body is compressed is only known once it has been buffered, and
+// Content-Encoding / Content-Length must be final before the header is sent (a
+// header changed after WriteHeader never reaches a real connection).
 func (g *gzipResponseWriter) WriteHeader(code int) {
 	if g.wroteHeader {
 		return
 	}
+	// Informational responses (103 Early Hints, ...) are not the final status
+	if code >= 100 && code < 200 {
+		g.ResponseWriter.WriteHeader(code)
+		return
+	}
+	if g.statusCode == 0 {
+		g.statusCode = code
+	}
+}
 
-	g.statusCode = code
+// commitHeader forwards the recorded status (200 if none) exactly once.
+func (g *gzipResponseWriter) commitHeader() {
+	if g.wroteHeader {
+		return
+	}
+	if g.statusCode == 0 {
+		g.statusCode = http.StatusOK
+	}
 	g.wroteHeader = true
-	g.ResponseWriter.WriteHeader(code)
+	g.ResponseWriter.WriteHeader(g.statusCode)
 }
 
 func (g *gzipResponseWriter) Write(b []byte) (int, error) {
 	// Check if adding this data would exceed max buffer size
-	if g.buf.Len()+len(b) > MaxCompressionBufferSize {
+	if g.bufferExceeded || g.buf.Len()+len(b) > MaxCompressionBufferSize {
 		// Mark as exceeded and fall back to streaming uncompressed
 		if !g.bufferExceeded {
 			g.bufferExceeded = true
+			g.commitHeader()
 			// Flush existing buffer uncompressed
 			if g.buf.Len() > 0 {
-				_, _ = g.ResponseWriter.Write(g.buf.Bytes())
+				if _, err := g.ResponseWriter.Write(g.buf.Bytes()); err != nil {
+					return 0, err
+				}
 				g.buf.Reset()
 			}
 		}
@@ -60,6 +83,10 @@ func (g *gzipResponseWriter) Write(b []byte) (int, error) {
 }
 
 func (g *gzipResponseWriter) Flush() {
+	// While the body is being buffered there is nothing to flush yet
+	if !g.bufferExceeded {
+		return
+	}
 	if f, ok := g.ResponseWriter.(http.Flusher); ok {
 		f.Flush()
 	}
@@ -72,11 +99,32 @@ func (g *gzipResponseWriter) Hijack() (net.Conn, *bufio.ReadWriter, error) {
 	return nil, nil, fmt.Errorf("underlying ResponseWriter does not support hijacking")
 }
 
-func (g *gzipResponseWriter) Finish() error {
-	if !g.wroteHeader {
-		g.WriteHeader(http.StatusOK)
+// shouldCompressBody decides, once the whole body is buffered, whether it is
+// sent compressed.
+func (g *gzipResponseWriter) shouldCompressBody(body []byte) bool {
+	// nothing to compress (also: 204, 304 and answers to HEAD have no body)
+	if len(body) == 0 {
+		return false
 	}
+	// already encoded by the backend: never encode twice
+	if g.Header().Get("Content-Encoding") != "" {
+		return false
+	}
+	if clHeader := g.Header().Get("Content-Length"); clHeader != "" {
+		// if Content-Length header found and is less than the minSize then return the body as is.
+		if cl, err := strconv.Atoi(clHeader); err == nil && cl < g.minSize {
+			return false
+		}
+	}
+	// acts as a fallback when Content-Length is not available.
+	if len(body) < g.minSize {
+		return false
+	}
+	// return body as is when Content-Type doesn't match specified in Config
+	return matchesContentType(g.Header().Get("Content-Type"), g.contentTypes)
+}
 
+func (g *gzipResponseWriter) Finish() error {
 	// If buffer was exceeded, data was already streamed uncompressed
 	if g.bufferExceeded {
 		return nil
@@ -84,50 +132,35 @@ func (g *gzipResponseWriter) Finish() error {
 
 	body := g.buf.Bytes()
 
-	clHeader := g.Header().Get("Content-Length")
-	if clHeader != "" {
-		cl, err := strconv.Atoi(clHeader)
-		// if Content-Length header found and is less than the minSize then return the body as is.
-		if err == nil && cl < g.minSize {
-			_, err := g.ResponseWriter.Write(body)
-			return err
+	if !g.shouldCompressBody(body) {
+		g.commitHeader()
+		if len(body) == 0 {
+			return nil
 		}
-	}
-
-	// acts as a fallback when Content-Length is not available.
-	if len(body) < g.minSize {
 		_, err := g.ResponseWriter.Write(body)
 		return err
 	}
 
-	// return body as is when Content-Type doesn't match specified in Config
-	ct := g.Header().Get("Content-Type")
-	if !matchesContentType(ct, g.contentTypes) {
-		_, err := g.ResponseWriter.Write(body)
+	var compressed bytes.Buffer
+	gz, err := gzip.NewWriterLevel(&compressed, g.level)
+	if err != nil {
+		return err
+	}
+	if _, err := gz.Write(body); err != nil {
+		return err
+	}
+	if err := gz.Close(); err != nil {
 		return err
 	}
 
+	// The headers must describe what is actually sent, before they are sent
 	g.Header().Set("Content-Encoding", "gzip")
-	// Remove Content-Length since compressed size differs from original
-	g.Header().Del("Content-Length")
+	g.Header().Set("Content-Length", strconv.Itoa(compressed.Len()))
+	g.Header().Add("Vary", "Accept-Encoding")
+	g.commitHeader()
 
-	gz, err := gzip.NewWriterLevel(g.ResponseWriter, g.level)
-	if err != nil {
-		return err
-	}
-	defer func() {
-		if err := gz.Close(); err != nil {
-			// Log the error but don't fail the request
-			_ = err // Explicitly ignore
-		}
-	}()
-
-	_, err = gz.Write(body)
-	if err != nil {
-		return err
-	}
-
-	return gz.Close()
+	_, err = g.ResponseWriter.Write(compressed.Bytes())
+	return err
 }
 
 // matchesContentType checks if content type matches any allowed prefix
@@ -200,7 +233,8 @@ func init() {
 		}
 		return func(next http.Handler) http.Handler {
 			return http.HandlerFunc(func(w http.ResponseWriter, r *http.Request) {
-				if !shouldCompress(r) {
+				// answers to HEAD carry no body; their headers must be the backend's
+				if !shouldCompress(r) || r.Method == http.MethodHead {
 					next.ServeHTTP(w, r)
 					return
 				}
